@@ -186,6 +186,8 @@ class Ops:
     # ---------------------------------------------------------------- equality
     def eq(self, a, b):
         """python == -> bool | z3 Bool"""
+        if (isinstance(a, float) and a != a) or (isinstance(b, float) and b != b):
+            return False
         if a is b and not isinstance(a, float):
             if isinstance(a, SV) and a.ty == "real":
                 return True  # reals: NaN is out of model (assumption: floats are reals)
@@ -485,6 +487,8 @@ class Ops:
                 return _PYCMP[t](a, b)
             except TypeError as e:
                 self.raise_py("TypeError", str(e))
+        if (isinstance(a, float) and a != a) or (isinstance(b, float) and b != b):
+            return False
         ka, kb = num_kind(a), num_kind(b)
         if ka and kb:
             w = "real" if "real" in (ka, kb) else "int"
